@@ -234,6 +234,46 @@ int main(int argc, char** argv) {
     RCHECK(size == 0 || lines == ((last - first) >> 4) + 1, "%llu lines for a range that intersects %llu lines", (unsigned long long)lines,
         (unsigned long long)(((last - first) >> 4) + 1));
     RCHECK(decoded == size, "%llu of %llu bytes decode back", (unsigned long long)decoded, (unsigned long long)size);
+    // second pass, zero-line collapsing: a range with all-zero interior lines dumped with COLLAPSE_ZERO_LINES -- every line that IS printed
+    // must still carry the right address (state carried from line to line must survive the skipped lines), skipped bytes must be zero
+    {
+      uint64_t csize = size < 96 ? 96 + (size & 0x0F) : (size > 4096 ? 4096 : size);
+      string z(csize, '\0');
+      for (uint64_t k = 0; k < 20 && k < csize; k++) z[k] = (char)(0x41 + k);                       // first line(s) non-zero
+      for (uint64_t k = csize - 9; k < csize; k++) z[k] = (char)(0x61 + (k & 7));                   // last line non-zero
+      if (csize > 70) z[csize / 2] = 0x7E;                                                          // one non-zero interior line
+      string t2;
+      try {
+        t2 = format_data(z.data(), z.size(), start, nullptr, flags | PrintDataFlags::DISABLE_COLOR | PrintDataFlags::COLLAPSE_ZERO_LINES);
+      } catch (const exception& e) {
+        printf("POSTCONDITION VIOLATED on the real code: format_data(start=0x%llX, size=%llu, COLLAPSE_ZERO_LINES) threw: %s\n", (unsigned long long)start,
+            (unsigned long long)csize, e.what());
+        return 1;
+      }
+      vector<bool> seen(csize, false);
+      size_t p2 = 0;
+      while (p2 < t2.size()) {
+        size_t e = t2.find('\n', p2);
+        if (e == string::npos) e = t2.size();
+        string line = t2.substr(p2, e - p2);
+        p2 = e + 1;
+        size_t bar = line.find(" |");
+        RCHECK(bar != string::npos, "collapse: line without address separator: %s", line.c_str());
+        uint64_t addr = strtoull(line.substr(0, bar).c_str(), nullptr, 16);
+        for (int col = 0; col < 16; col++) {
+          size_t q = bar + 2 + 3 * col;
+          RCHECK(q + 3 <= line.size(), "collapse: short line: %s", line.c_str());
+          string cell = line.substr(q, 3);
+          if (cell == "   ") continue;
+          uint64_t v = strtoull(cell.c_str(), nullptr, 16), at = addr + col;
+          RCHECK((uint64_t)(at - start) < csize, "collapse: column %d of line %llX shows a byte outside the dumped range", col, (unsigned long long)addr);
+          RCHECK((uint8_t)z[at - start] == v, "with COLLAPSE_ZERO_LINES the byte shown at address %llX is %02llX, the dumped byte there is %02X (line address wrong after a collapsed line?)",
+              (unsigned long long)at, (unsigned long long)v, (uint8_t)z[at - start]);
+          seen[at - start] = true;
+        }
+      }
+      for (uint64_t k = 0; k < csize; k++) RCHECK(seen[k] || z[k] == 0, "collapse: non-zero byte at offset %llu is not shown", (unsigned long long)k);
+    }
     return 0;
   }
   if (a.mode == "overload") {
